@@ -12,7 +12,7 @@ CONF = {
         "level_note": "Trusted: the 10-line bit-serial reference in harness/fitmodel/base.go; that Write processes bytes one at a time in order (enumerated per byte, sampled for multi-byte writes).",
         "quick": {"checks": 3000, "timeout": 120},
         "thorough": {"checks": 300000, "timeout": 600},
-        "rule": "enumerated: every (16-bit register state, input byte) pair, the state reached through the public API "
+        "rule": "embedded-sums: 50 per rapid case of data || own CRC little-endian || 0-16 zero bytes || tail, 8-byte aligned or not, written whole or split once. enumerated: every (16-bit register state, input byte) pair, the state reached through the public API "
                 "by a 2-byte prefix (bijection computed with the bit-serial reference); each pair is distinct and counted "
                 "non-trivial. generated: byte strings of 0..5000 bytes with 0..8 write boundaries (empty writes allowed) "
                 "and a Reset point; non-trivial = at least 3 write pieces, distinct by fingerprint of (data, cuts, reset). "
@@ -29,7 +29,7 @@ CONF["C02"] = {
     "level_note": "Trusted: harness/fitmodel (base type table from the FIT protocol document, interpreter), the hook's table export (which struct field a wire field lands in), the reading of 'compatible' = same type or an integer type of the same signedness that is not wider. Narrow fields carrying their own invalid pattern, latitude exactly +90 degrees and reference-less time situations are not decided (counted as undecided). Accumulated component destinations are compared by C18.",
     "quick": {"checks": 4000, "timeout": 300, "shrinktime": "10s"},
     "thorough": {"checks": 60000, "timeout": 1500, "shards": 8, "shrinktime": "30s"},
-    "rule": "sweep: one single-field stream per (profile field of an observable message, compatible definition type incl. narrower same-signedness integers / array lengths 1, len-1, len, len+1, max / string sizes, byte order, boundary value) - distinct by construction, all non-trivial. streams: rapid GenStream (file type, 1..24 records over hosted, unhosted and unknown messages, compatible definitions, field permutations, unknown and developer fields, redefinitions, compressed headers); non-trivial = at least one big-endian multi-byte, narrower, negative signed, array, string, coordinate or time field; distinct by fingerprint of the stream. neighbours: same generator, unknown messages/fields/developer fields removed, digests of the remaining messages must be equal; non-trivial = something was removed.",
+    "rule": "a third of the streams are read through a drawn chunking; boundary: up to 40 (thorough 300) small streams, each decoded once per byte position with the decoder's 4096-byte buffer boundary slid over it by filler records. sweep: one single-field stream per (profile field of an observable message, compatible definition type incl. narrower same-signedness integers / array lengths 1, len-1, len, len+1, max / string sizes, byte order, boundary value) - distinct by construction, all non-trivial. streams: rapid GenStream (file type, 1..24 records over hosted, unhosted and unknown messages, compatible definitions, field permutations, unknown and developer fields, redefinitions, compressed headers); non-trivial = at least one big-endian multi-byte, narrower, negative signed, array, string, coordinate or time field; distinct by fingerprint of the stream. neighbours: same generator, unknown messages/fields/developer fields removed, digests of the remaining messages must be equal; non-trivial = something was removed.",
     "assumptions": ["fitmodel base type table and interpreter are correct readings of the FIT protocol", "hook table export is faithful (it copies the table entries)"],
 }
 
@@ -55,7 +55,7 @@ CONF["C03"] = {
     "level_note": "Trusted: the exported container structs are the specification of what a file type holds (slice member = all in order, pointer member = last); File-level slots (FileId, FileCreator, TimestampCorrelation) take precedence over containers. Repeated file_id messages always carry the same type (changing it mid-stream is finding D13 under C07).",
     "quick": {"checks": 4000, "timeout": 300, "shrinktime": "10s"},
     "thorough": {"checks": 150000, "timeout": 1500, "shards": 4, "shrinktime": "30s"},
-    "rule": "typebytes: each of the 256 file_id type bytes through Decode and NewFile, then all 17 accessors (distinct, all counted). pairs: each (file type, known message number) with 3 tagged messages of that type on two local types and both byte orders, interleaved with another hosted type. sequences: rapid-drawn 1..30 messages over a focus set of 3 hosted types plus other hosted, unhosted known and unknown messages, each tagged with its position in a marker field, on random local types and byte orders; non-trivial = at least 2 message types and a hosted type occurring at least twice; distinct by fingerprint of the sequence.",
+    "rule": "sequences also use compressed-timestamp headers on local types 0-3 and unknown messages with 324-byte payloads. typebytes: each of the 256 file_id type bytes through Decode and NewFile, then all 17 accessors (distinct, all counted). pairs: each (file type, known message number) with 3 tagged messages of that type on two local types and both byte orders, interleaved with another hosted type. sequences: rapid-drawn 1..30 messages over a focus set of 3 hosted types plus other hosted, unhosted known and unknown messages, each tagged with its position in a marker field, on random local types and byte orders; non-trivial = at least 2 message types and a hosted type occurring at least twice; distinct by fingerprint of the sequence.",
     "assumptions": ["exported container struct members are the routing specification", "marker fields are unsigned scalars outside component expansion so tags survive decoding unchanged (checked by C02)"],
 }
 
@@ -67,7 +67,7 @@ CONF["C05"] = {
     "level_note": "Trusted: harness/fitmodel.Parse and the bitwise CRC; the mapping File value -> wire bytes (strings cut to length-1 and NUL padded, arrays cut/padded to the profile length, local times as wall-clock seconds). An Encode error with nothing written is outside this property (counted).",
     "quick": {"checks": 3000, "timeout": 300, "shrinktime": "10s"},
     "thorough": {"checks": 100000, "timeout": 1500, "shards": 8, "shrinktime": "30s"},
-    "rule": "files: rapid GenFile (file type, header size, protocol, byte order, 0..4 messages per slice slot, each field set with probability 25-50% to boundary-biased values, strings and arrays sometimes longer than the profile length); non-trivial = a slice slot holding at least 2 messages with different sets of set fields (group definition is a proper union); distinct by fingerprint of the spec. empty+all-invalid: every file type x header size x byte order, empty and with one all-invalid message per slot.",
+    "rule": "one file in six has a long slot (256-600 sparse messages, a field of their own on messages 255/256/511/512/first/last). files: rapid GenFile (file type, header size, protocol, byte order, 0..4 messages per slice slot, each field set with probability 25-50% to boundary-biased values, strings and arrays sometimes longer than the profile length); non-trivial = a slice slot holding at least 2 messages with different sets of set fields (group definition is a proper union); distinct by fingerprint of the spec. empty+all-invalid: every file type x header size x byte order, empty and with one all-invalid message per slot.",
     "assumptions": ["fitmodel.Parse implements the FIT file grammar", "Files are built with NewHeader/NewFile/NewXMsg and exported fields only"],
 }
 CONF["C06"] = {
@@ -78,7 +78,7 @@ CONF["C06"] = {
     "level_note": "Trusted: the executable domain clause (valid UTF-8 without NUL up to length-1 bytes, arrays up to the profile length, seconds 1..2^32-2, valid coordinates, set scalars avoid the invalid pattern), the expansion model. Accumulated component destinations are compared here too; disagreements explained by open findings D10/D11/K1 are excluded and counted.",
     "quick": {"checks": 3000, "timeout": 300, "shrinktime": "10s"},
     "thorough": {"checks": 100000, "timeout": 1500, "shards": 8, "shrinktime": "30s"},
-    "rule": "sweep: one File per (slot of a file type, field, in-domain boundary value, byte order) - distinct by construction. files: rapid GenFile restricted to the representable domain; non-trivial = at least one array, string, local time or negative value set; distinct by fingerprint of the spec.",
+    "rule": "boundary: 91 Files x 2 byte orders whose encoding exceeds 4096 bytes, sized so that the definition of a later slot starts at consecutive offsets around the boundary; one generated file in six has a long slot (256-600 messages). sweep: one File per (slot of a file type, field, in-domain boundary value, byte order) - distinct by construction. files: rapid GenFile restricted to the representable domain; non-trivial = at least one array, string, local time or negative value set; distinct by fingerprint of the spec.",
     "assumptions": ["domain clause as listed in level_note", "component expansion model of harness/fitmodel/expand.go"],
 }
 
@@ -90,7 +90,7 @@ CONF["C07"] = {
     "level_note": "Trusted: the comparator's equivalences are the ones the property names. Open findings D9, D13, D15, D16, K1 (and D10/D11 where accumulated destinations are involved) are excluded by signature; each is reproduced by a dedicated input on every run.",
     "quick": {"checks": 2500, "timeout": 400, "shrinktime": "10s"},
     "thorough": {"checks": 60000, "timeout": 2400, "shards": 8, "shrinktime": "30s", "fuzz": {"target": "FuzzReencode", "seconds": 150}},
-    "rule": "corpus: every .fit file under testdata (quick: up to 200 kB) x both output byte orders. streams: rapid GenStream, accepted by construction. mutants: structural mutations of generated streams and parsed corpus files, framing repaired. non-trivial = Decode accepted the input (and, for generated streams, it has at least one message beyond file_id); distinct by fingerprint of the input bytes. Cases are vacuous when Decode rejects the input (counted in evaluations only).",
+    "rule": "wide: every message type of 30+ fields with all its fields on the wire, both byte orders; one stream in six draws definitions with up to 130 fields. corpus: every .fit file under testdata (quick: up to 200 kB) x both output byte orders. streams: rapid GenStream, accepted by construction. mutants: structural mutations of generated streams and parsed corpus files, framing repaired. non-trivial = Decode accepted the input (and, for generated streams, it has at least one message beyond file_id); distinct by fingerprint of the input bytes. Cases are vacuous when Decode rejects the input (counted in evaluations only).",
     "assumptions": ["strings compare up to the longest whole-character prefix that fits length-1 bytes; arrays up to the profile length"],
 }
 
@@ -138,7 +138,7 @@ CONF["C12"] = {
     "level_note": "Trusted: the time model in harness/fitmodel/interp.go. Not decided (counted): compressed record before any non-zero reference; everything after a reference-less local timestamp until the next explicit one; sums that pass 2^32-1; narrower definitions carrying their own invalid pattern.",
     "quick": {"checks": 4000, "timeout": 300, "shrinktime": "10s"},
     "thorough": {"checks": 150000, "timeout": 1500, "shards": 8, "shrinktime": "30s"},
-    "rule": "sequences: GenStream restricted to messages with time fields in activity/monitoring/schedules/course/weight files, 4..60 records, compressed headers on about half the records, time fields favoured; non-trivial = at least one 5-bit rollover, at least two re-bases and at least two decided compressed records in the same stream; distinct by fingerprint of the stream. arithmetic: 33 second counts x both byte orders through timestamp, another date_time, a compressed record and a local timestamp.",
+    "rule": "chained: every 4th stream is also decoded with DecodeChained as the second file of a chain whose first file left a timestamp reference behind. sequences: GenStream restricted to messages with time fields in activity/monitoring/schedules/course/weight files, 4..60 records, compressed headers on about half the records, time fields favoured; non-trivial = at least one 5-bit rollover, at least two re-bases and at least two decided compressed records in the same stream; distinct by fingerprint of the stream. arithmetic: 33 second counts x both byte orders through timestamp, another date_time, a compressed record and a local timestamp.",
     "assumptions": ["time model of harness/fitmodel/interp.go"],
 }
 CONF["C13"] = {
@@ -149,7 +149,7 @@ CONF["C13"] = {
     "level_note": "Trusted: reference interpreter slot model; messages are chosen among those the file type holds so that values are observable.",
     "quick": {"checks": 1200, "timeout": 300, "shrinktime": "10s", "steps": 40},
     "thorough": {"checks": 40000, "timeout": 1800, "shards": 8, "shrinktime": "30s", "steps": 60},
-    "rule": "machine: rapid t.Repeat over actions define(local 0-15), data(defined local), compressedData(defined local 0-3), dataUndefined (ends the history), invariant = decode-and-compare after each step (each invariant run is one evaluation); non-trivial history = at least 3 local types defined, a redefinition that changes message or byte order, and a compressed header on local type 1-3; distinct by fingerprint of the final stream. undefined: the 16+4 never-defined local types. slot-independence: one inserted definition per history.",
+    "rule": "machine actions also include redefineVariant (same definition with only the byte order flipped / one field dropped / field list reversed); chained-undefined: 20 two-file chains in which the second file uses a local type only the first defined. machine: rapid t.Repeat over actions define(local 0-15), data(defined local), compressedData(defined local 0-3), dataUndefined (ends the history), invariant = decode-and-compare after each step (each invariant run is one evaluation); non-trivial history = at least 3 local types defined, a redefinition that changes message or byte order, and a compressed header on local type 1-3; distinct by fingerprint of the final stream. undefined: the 16+4 never-defined local types. slot-independence: one inserted definition per history.",
     "assumptions": ["reference interpreter"],
 }
 CONF["C16"] = {
@@ -185,7 +185,7 @@ CONF["C17"] = {
     "level_note": "Trusted: float64 arithmetic s*180/2^31 is exact (39 significant bits); the hook exports decodeDateTime/encodeTime unchanged. Latitude exactly +90 degrees (2^30 semicircles) is not decided: property text says outside +-90, documentation and an existing unit test exclude it (counted as undecided).",
     "quick": {"checks": 1, "timeout": 300},
     "thorough": {"checks": 1, "timeout": 3000},
-    "rule": "each enumerated 32-bit value is a distinct case and counted non-trivial (every value exercises validity + conversion); quick: stride 257 over each of the three spaces plus +-3 around 0, +-2^30, 2^31, the sentinel 0x7FFFFFFF, 2^29, 2^32-1, 0x10000000; thorough: every value, printed form included.",
+    "rule": "the printed form is also checked at +-80 semicircles around every whole degree. each enumerated 32-bit value is a distinct case and counted non-trivial (every value exercises validity + conversion); quick: stride 257 over each of the three spaces plus +-3 around 0, +-2^30, 2^31, the sentinel 0x7FFFFFFF, 2^29, 2^32-1, 0x10000000; thorough: every value, printed form included.",
     "assumptions": ["closed-form oracles as stated in the property"],
 }
 
@@ -223,7 +223,7 @@ CONF["C08"] = {
     "level_note": "Trusted: the digest covers everything observable through the public surface. record.distance derived from compressed_speed_distance is left out while finding K1 is open (K1 is reproduced by a dedicated two-call history on every run).",
     "quick": {"checks": 150, "timeout": 400, "shrinktime": "10s", "steps": 30},
     "thorough": {"checks": 4000, "timeout": 2400, "shards": 8, "shrinktime": "30s", "steps": 60},
-    "rule": "pool (drawn from the seed): repository files up to 6 kB, 16 generated streams, 4 streams with accumulating component sources, 4 chains, 12 generated Files. histories: rapid t.Repeat over the 6 call kinds + repeatLast with drawn inputs, each step compared with its fresh-process baseline (one evaluation per step); non-trivial = a history of at least 3 calls in which a call is preceded by a different call; distinct by fingerprint of the op list. encode-across-processes: every (File, order) in a second fresh process.",
+    "rule": "call kinds also include encodebad (a File with a non-UTF-8 string: Encode fails part-way) and encodefw (a writer that refuses the data); decode-with-options calls share one package-level options slice; the pool also holds 8 streams whose local timestamps differ in zone offset by seconds, out-of-domain Files and byte arrays longer/shorter than the profile length. pool (drawn from the seed): repository files up to 6 kB, 16 generated streams, 4 streams with accumulating component sources, 4 chains, 12 generated Files. histories: rapid t.Repeat over the 6 call kinds + repeatLast with drawn inputs, each step compared with its fresh-process baseline (one evaluation per step); non-trivial = a history of at least 3 calls in which a call is preceded by a different call; distinct by fingerprint of the op list. encode-across-processes: every (File, order) in a second fresh process.",
     "assumptions": ["a freshly started process has no library state"],
 }
 CONF["C09"] = {
@@ -235,7 +235,7 @@ CONF["C09"] = {
     "level_note": "Trusted: Go race detector (no false positives); the program keeps inputs independent by construction (each call builds its own reader/File). Campaign A draws only inputs that do not feed the package-level component accumulators: any race report there is a violation. Campaign B draws inputs that do; a report whose two access stacks both start in uint32Accumulator.accumulate / RecordMsg.expandComponents is finding K1, anything else is a violation.",
     "quick": {"checks": 8, "timeout": 600, "shrinktime": "20s"},
     "thorough": {"checks": 500, "timeout": 3000, "shrinktime": "60s"},
-    "rule": "each rapid case is one program: G in 2..16 goroutines, each 5..40 calls drawn from the 6 call kinds on pool inputs (campaign A: inputs without accumulating sources, B: with), released together by a barrier under a drawn GOMAXPROCS; all programs are counted non-trivial only if distinct by fingerprint; the class 'program with overlapping same-kind calls' (measured with per-call timestamps) shows how many actually overlapped.",
+    "rule": "every program runs in a fresh worker process in which it is the first use of the library (the sequential baseline is computed afterwards); call kinds as in C08, including failing Encode calls and shared option values. each rapid case is one program: G in 2..16 goroutines, each 5..40 calls drawn from the 6 call kinds on pool inputs (campaign A: inputs without accumulating sources, B: with), released together by a barrier under a drawn GOMAXPROCS; all programs are counted non-trivial only if distinct by fingerprint; the class 'program with overlapping same-kind calls' (measured with per-call timestamps) shows how many actually overlapped.",
     "assumptions": ["race detector soundness for the executed schedules", "schedules are sampled by the Go scheduler"],
 }
 
@@ -247,7 +247,7 @@ CONF["C19"] = {
     "level_note": "Trusted: harness/wb (zip/XML reader independent of tealeg/xlsx), its reading of names, base types, array flags, lengths and kinds; go/types. 'Compiles together with the support code' is decided on the generated side only: even the stock workbooks do not build with today's file_types.go (it needs messages of SDK 21.115), so type errors located in hand-written files are counted, not judged. Flags -hrst, -timestamp, -test are not part of the property.",
     "quick": {"checks": 2, "timeout": 600, "shrinktime": "30s"},
     "thorough": {"checks": 40, "timeout": 3000, "shrinktime": "120s"},
-    "rule": "stock: the 5 workbooks x {xlsx with -sdk, FitSDKRelease zip}. selections: 8 per rapid case, each = workbook x mode (a few rows / a share of 5-60% of all rows / most of one message / rows involved in dependencies) closed under dependencies; non-trivial = at least one row disabled and at least one dependency re-enabled by the closure; distinct by fingerprint of (version, disabled rows).",
+    "rule": "cover: 3 selections per workbook (row number mod 3, plus everything depending on a disabled row) that together disable every enabled row once; input forms xlsx + -sdk, SDK zip, SDK zip named for another release + -sdk. stock: the 5 workbooks x {xlsx with -sdk, FitSDKRelease zip}. selections: 8 per rapid case, each = workbook x mode (a few rows / a share of 5-60% of all rows / most of one message / rows involved in dependencies) closed under dependencies; non-trivial = at least one row disabled and at least one dependency re-enabled by the closure; distinct by fingerprint of (version, disabled rows).",
     "assumptions": ["dependency model: component targets and sub-field reference fields of enabled rows (validated: single-row disabling of workbook 21.40 fails for exactly those rows)"],
 }
 
